@@ -292,7 +292,7 @@ class C03(Prop):
     def generate(self, rng, tier):
         ntab = rng.choice([1, 1, 2, 3])
         custom_fmt = rng.random() < 0.2
-        padded = rng.random() < 0.15
+        padded = rng.random() < 0.3
         tabs = []
         for i in range(ntab):
             k = rng.randrange(1, 6)
